@@ -109,7 +109,7 @@ func hoRun(in []byte) (interface{}, error) {
 		copy(rdbBytes, "REDIS0009")
 		stream := make([]byte, c.StreamLen)
 		streamFill(uint64(cfg.Seed)+uint64(c.Id), 0, stream)
-		runid := "aabbccddeeff00112233445566778899aabbccdd"
+		runid := "aAbBccDDeeff00112233445566778899aabbCCdd" // (mixed case: the announced id is an opaque token, to be used verbatim)
 		var dropAt []int
 		if c.DropAt > 0 && c.DropAt < len(stream) && c.Mode != "dump" {
 			dropAt = []int{c.DropAt}
